@@ -341,6 +341,42 @@ fn main() {
             println!("{:016x}", d);
             0
         }
+        "seq-runs" => {
+            // Runs N generated cases sequentially on the main thread (no worker threads): the form
+            // used under Miri (`cargo +nightly miri run -- seq-runs C20 --runs N`), where undefined
+            // behaviour in the library's unsafe code aborts the interpreter.
+            let runs = a.runs.unwrap_or(100);
+            let first = a.secs.unwrap_or(0); // --secs doubles as the first run index here
+            let mut bad = 0;
+            for run in first..first + runs {
+                if std::env::var_os("TASKSIM_ANNOUNCE_RUNS").is_some() {
+                    println!("run {run}");
+                }
+                let v = match a.prop.as_str() {
+                    p if VEC_PROPS.contains(&p) => {
+                        let c = vecworld::check::VecCheck { prop: p.into(), kf_retire: true };
+                        let mut rng = rng::Rng::for_run(a.seed, c.domain(), run);
+                        c.exec(&c.gen(&mut rng)).violation
+                    }
+                    p if OBS_PROPS.contains(&p) => {
+                        let c = obsworld::check::ObsCheck { prop: p.into() };
+                        let mut rng = rng::Rng::for_run(a.seed, c.domain(), run);
+                        c.exec(&c.gen(&mut rng)).violation
+                    }
+                    _ => {
+                        let c = obsworld::acheck::AsyncCheck;
+                        let mut rng = rng::Rng::for_run(a.seed, c.domain(), run);
+                        c.exec(&c.gen(&mut rng)).violation
+                    }
+                };
+                if let Some(v) = v {
+                    println!("run {run}: {:?}", v);
+                    bad += 1;
+                }
+            }
+            println!("seq-runs {} runs={} violations={}", a.prop, runs, bad);
+            (bad > 0) as i32
+        }
         "run-case" => {
             // debugging aid: tasksim run-case <world> <case.json>
             let text = std::fs::read_to_string(a.file.clone().unwrap_or_default()).unwrap_or_default();
